@@ -138,8 +138,8 @@ class DemoReplayer:
             now = self.snapshot(i)
             if now != snap:
                 ch = sorted(k for k in snap if snap[k] != now.get(k))
-                out.append('layer %d (%s storage below the top) changed: %s' % (
-                    i + 1, self.kind_of(i + 1), ', '.join('%s %r -> %r' % (k, snap[k], now.get(k)) for k in ch)))
+                out.append('lower layer changed [%s]: layer %d (%s storage below the top): %s' % (
+                    ','.join(ch), i + 1, self.kind_of(i + 1), ', '.join('%s %r -> %r' % (k, snap[k], now.get(k)) for k in ch)))
         return out
 
     # ---- one action ----
@@ -221,8 +221,10 @@ class DemoReplayer:
                 else:
                     new = self._new_raw(self.ckind)
                     top = DemoStorage(base=st, changes=new) if len(self.stack) == 1 else st.push(changes=new)
-                if top.base is not st or top.changes is not new or new in self.raw:
-                    raise ReplayError('push did not stack the storages')
+                if new in self.raw:
+                    raise ReplayError('the new changes storage is already part of the stack')
+                if top.base is not st or top.changes is not new:
+                    got = 'NotStackedOnTop'      # not (base = the storage pushed on, changes = the new storage)
                 self.raw.append(new)
                 self.stack.append(top)
                 self.issued.append(set())
@@ -495,11 +497,11 @@ def replay_behaviour(job):
                 what = 'monitor'          # cross-check of TLC's verdict against what the real layers hold
                 mm = list(rp.monitor)
             if not mm:
-                what = 'obs'
-                mm, real = rp.compare(step['state']['obs'], layers)
-            if not mm:
                 what = 'base'
                 mm = rp.check_lower()
+            if not mm:
+                what = 'obs'
+                mm, real = rp.compare(step['state']['obs'], layers)
             if mm:
                 result['mismatch'] = {'step': i, 'action': name, 'args': repr(args), 'what': what, 'detail': mm[:4],
                                       'prefix': result['sig'][:i + 1], 'layers': len(layers)}
